@@ -168,7 +168,7 @@ static U64Vec g_fine;
 static void ph_fine(void *u) {
     for (size_t i = 0; i < g_fine.n; i++) {
         if (!mc_mine(i)) continue;
-        if ((i & 63) == 0 && mc_expired()) return;
+        if (mc_tick(63)) return;
         mc_states(1);
         MC_RUN(OP_CELL, H(g_fine.v[i]));
     }
@@ -181,7 +181,7 @@ static void ph_axis(void *u) {
         U64Vec v = {0};
         dom_axis(r, r == 15 ? (mc_thorough ? 3000 : 400) : (mc_thorough ? 6000 : 600), mc_wid, mc_nw, &v);
         for (size_t i = 0; i < v.n; i++) {
-            if ((i & 15) == 0 && mc_expired()) return;
+            if (mc_tick(15)) return;
             mc_states(1);
             MC_RUN(OP_CELL, H(v.v[i]));
         }
@@ -204,7 +204,7 @@ static void ph_seq(void *u) {
 static void ph_mixed(void *u) {
     size_t n = g_mix.n, lo = n * mc_wid / mc_nw, hi = n * (mc_wid + 1) / mc_nw;
     for (size_t q = lo; q < hi; q++) {
-        if ((q & 63) == 0 && mc_expired()) return;
+        if (mc_tick(63)) return;
         size_t i = (size_t)(((unsigned __int128)q * 0x9E3779B97F4A7C15ull) % n);  // bijective only if gcd(mult, n) = 1: n is made odd below
         mc_states(1);
         MC_RUN(OP_CELL, H(g_mix.v[i]));
